@@ -1013,6 +1013,13 @@ def canon_line(g1, g2):
     return f"canon {a} | {b}"
 
 
+TRACES_MAX = int(os.environ.get("C14_TRACES_MAX", "8"))   # blank nodes per graph given to the model of `_traces`
+
+
+def traces_ok(g1, g2):
+    return max(len(bn_of(g1)), len(bn_of(g2))) <= TRACES_MAX
+
+
 def refine_lines(g1, g2):
     """driver lines for the colour-refinement model (RV/C14/Canon.lean `refineInit`, `canonRefine`): triples are coded
     with the pair's shared vocabulary and de-duplicated by CODE (equal rdflib terms share a code; the model reads the
@@ -1029,7 +1036,7 @@ def refine_lines(g1, g2):
                 out.extend(t)
         return " ".join(out)
     a, b = uniq(a), uniq(b)
-    return [f"canonrefine {a} | {b}"]
+    return [f"canonrefine {a} | {b}"] + ([f"canontraces {a} | {b}"] if traces_ok(g1, g2) else [])
 
 
 def refine_stats_obs(st):
@@ -1082,7 +1089,8 @@ def select_model_obs(case, out):
         # colour hashes, theorems canon_complete_partial / canon_sound_partial) when the model's refinement is discrete
         # on both graphs, otherwise (driver answers n/a) by the verified isomorphism verdict (theorem canon_decides)
         return ([out[0]] * 4 + ["diff " + out[1]] + (["canon-search-verdict " + out[2]] if n == 3 else [])
-                + ["canon-refine-verdict " + (out[n] if out[n] != "n/a" else out[0])])
+                + ["canon-refine-verdict " + (out[n] if out[n] != "n/a" else out[0])]
+                + (["canon-traces-verdict " + out[n + 1]] if traces_ok(case["g1"], case["g2"]) else []))
     if case["kind"] == "skolem":
         return ["skolem-roundtrip-iso " + out[0]] if out else []
     if case["kind"] == "hist":
@@ -1196,8 +1204,18 @@ def refine_probe(triples, stats, public=None):
             codes.extend(ct)
     line = "refine " + " ".join(str(c) for c in codes)
     exe = os.path.join(core.LEAN, ".lake", "build", "bin", DRIVER)
-    outs = subprocess.run([exe], input=line + "\n" + line.replace("refine", "refinestat", 1) + "\n", stdout=subprocess.PIPE,
+    nb = len({c for c in codes if c % 2 == 1})
+    tline = (line.replace("refine", "tracesstat", 1) + "\n") if nb <= TRACES_MAX else ""
+    outs = subprocess.run([exe], input=line + "\n" + line.replace("refine", "refinestat", 1) + "\n" + tline, stdout=subprocess.PIPE,
                           text=True, timeout=60, cwd=core.LEAN).stdout.split("\n")
+    if public is not None and tline and len(outs) > 2 and outs[2].startswith("individuations="):
+        # DIAGNOSTIC: number of `_traces` calls (stats["individuations"]) of the code vs the model.  The candidates are
+        # visited in the iteration order of Python sets, which the automorphism pruning depends on, so the count is
+        # order-dependent and never a verdict
+        k_model = int(outs[2].split()[0].split("=")[1])
+        k_impl = int(public.get("individuations", 0))
+        key3 = "traces_individuations_agree" if k_model == k_impl else "traces_individuations_differ"
+        stats[key3] = stats.get(key3, 0) + 1
     out = outs[0].strip()
     if public is not None and len(outs) > 1:
         # DIAGNOSTIC: the PUBLIC stats of to_canonical_graph (number of blank-node colours after the initial _refine,
@@ -1330,6 +1348,11 @@ def run_pair(case):
         # the colour-refinement model, through the public `stats` of to_canonical_graph
         (k1, dis1), (k2, dis2) = refine_stats_obs(st1), refine_stats_obs(st2)
         obs.append("canon-refine-verdict " + b2s(r_can))
+        if traces_ok(g1s, g2s):
+            # the model of canonical_triples INCLUDING the `_traces` search (RV/C14/Traces.lean) predicts the equality
+            # of the two canonical graphs from its own canonical triples
+            obs.append("canon-traces-verdict " + b2s(r_can))
+            stats["canon_traces_verdicts"] = 1
         stats["refine_discrete_graphs"] = int(dis1) + int(dis2)
         if dis1 and dis2:
             stats["canon_refine_verdicts_both_discrete"] = 1
